@@ -89,11 +89,19 @@ class ImplRun:
         self.value = None
         self.res = None
         self.out = None
+        self.solver_retry = False
         try:
             self.stage = "setup"
             self.portf, self.tg, self.prices, self.op = impl.setup(scn)
             self.stage = "optimize"
             self.res = impl.solve(self.op, solver)
+            if isinstance(self.res, str) and self.res == "not successful" and solver == "SCIPY":
+                # HiGHS (as shipped with scipy) occasionally declares a feasible, degenerate problem infeasible;
+                # a verdict of infeasibility is only taken when a second solver agrees
+                second = impl.solve(self.op, "SCIP")
+                if not isinstance(second, str):
+                    self.res = second
+                    self.solver_retry = True
             if isinstance(self.res, str):
                 self.status = self.res
                 return
